@@ -80,4 +80,14 @@ SameOnEveryOms ==                  \* the ranges just written are present on eve
     last.out.st = "served" => \A o \in last.t.path : RangesOf(last.out.nm) \subseteq occ[o]
 
 TypeOK == occ \in [OMS -> SUBSET Slots]
+
+-----------------------------------------------------------------------------
+(* Refinement of SpectrumCore (whose invariant - occupancy is exactly the union of the grants, grants that share an  *)
+(* OMS share no slot - is PROVED with TLAPS for any set of OMS, the unbounded axis and histories of any length):        *)
+(* the grants are the served requests of the history, and every Assign step is an Accept step of the core for the     *)
+(* request's path and the union of its slot ranges, or leaves occupancy and grants as they were.                       *)
+Grants == {[path |-> hist[i].t.path, rng |-> UNION SlotSets(i)] : i \in Served}
+Core == INSTANCE SpectrumCore WITH served <- Grants
+CoreStep == [][IF last'.out.st = "served" THEN Core!Accept(last'.t.path, RangesOf(last'.out.nm))
+               ELSE (occ' = occ /\ Grants' = Grants)]_vars
 ==============================================================================
